@@ -14,7 +14,12 @@ func init() {
 	isolateRules["common-lisp:unuse-package"] = anyOf("pkg")
 	// reading a line from a closed stream never returns
 	isolateRules["common-lisp:read-line"] = anyOf("scl")
-	isolateRules["net:wait-for-input"] = anyOf("el")
+	// (do () (t)): an end test that is a symbol or a constant is dropped, the loop never ends
+	doRule := func(args []string, has func(...string) bool) bool {
+		return 2 <= len(args) && (args[1] == "(1 2 3)" || args[1] == "(1 . 2)" || args[1] == "lamx")
+	}
+	isolateRules["common-lisp:do"] = doRule
+	isolateRules["common-lisp:do*"] = doRule
 	// (unexport '(lambda (x) x)) takes `lambda` away from cl-user: no fault, but it must not happen inside a worker
 	isolateRules["common-lisp:unexport"] = anyOf("lamx")
 }
